@@ -407,7 +407,7 @@ def model_eval(cases, per_file=60):
 
 
 # --------------------------------------------------------------------------- one random history
-def run_history(seed, scratch: Path, rep: Report, *, nops, weights, checks, concurrent=2, delay=0.0, encrypted=None):
+def run_history(seed, scratch: Path, rep: Report, *, nops, weights, checks, concurrent=2, delay=0.0, encrypted=None, mode=None):
     """Executes one history.  weights: op kind -> weight.  checks: set of oracle groups to apply
     ('restore', 'exact', 'frame', 'dedup', 'access').  Returns (model_case, observations) for the
     correspondence, appending violations to rep."""
@@ -419,6 +419,8 @@ def run_history(seed, scratch: Path, rep: Report, *, nops, weights, checks, conc
     mode_ = rng.random()
     world.long_lived = mode_ < 0.25
     world.one_object = 0.25 <= mode_ < 0.45
+    if mode is not None:
+        world.long_lived, world.one_object = mode == 'long_lived', mode == 'one_object'
     world.cache_mode = rng.choice([None, None, None, 'per_user', 'shared'])
     world.default_kdf = encrypted and rng.random() < 0.3
     segments = [[([], []), [], []]]      # [store0, model ops, observations]
